@@ -293,3 +293,64 @@ Fixpoint chain (prev_last : Z) (bs : list batch) : Prop :=
 
 (* what identifies a record on the wire *)
 Definition stamp4 (m : msg) : Z * Z * Z * bool := (m_id m, m_seq m, m_epoch m, m_hasseq m).
+
+(* ---------------------------------------------------------------- statements (as propositions / checkers) *)
+
+Definition subm_count (i : Z) (s : state) : nat := count_id i (map m_id (g_submitted s)).
+
+(* a rule-enforcing broker does not invent an Ok / DuplicateSequenceNumber answer *)
+Definition sane_pf (f : pfault) : bool :=
+  match f with PErrBefore e | PErrAfter e => negb (e =? 0) && negb (e =? E_DUPLICATE) | _ => true end.
+Definition sane_choice (ch : ychoice) : bool :=
+  match ch with YDeliver _ (RAnswer pf) => forallb sane_pf pf | _ => true end.
+Definition conn_free_choice (ch : ychoice) : bool :=
+  match ch with YDeliver _ RDropBefore | YDeliver _ RLoseAck => false | _ => true end.
+
+Definition no_duplicate_at (y : sys) : Prop :=
+  (forall i, (appended i y <= 1)%nat) /\ (forall i, In i (success_ids (y_st y)) -> appended i y = 1%nat).
+
+(* the property as stated, over all configurations of idempotent mode, schedules and fault scripts *)
+Definition no_duplicate_full : Prop :=
+  forall c sched, idem_cfg c = true -> forallb sane_choice sched = true ->
+  (forall i, (subm_count i (y_st (yrun c sched)) <= 1)%nat) -> no_duplicate_at (yrun c sched).
+(* ... and restricted to per-partition answers (no connection-level failure at all) *)
+Definition no_duplicate_conn_free : Prop :=
+  forall c sched, idem_cfg c = true -> forallb sane_choice sched = true -> forallb conn_free_choice sched = true ->
+  (forall i, (subm_count i (y_st (yrun c sched)) <= 1)%nat) -> no_duplicate_at (yrun c sched).
+
+(* ... and to histories without any error event either (so: no epoch bump at all) *)
+Definition no_error_events (s : state) : bool := forallb (fun e => match e with Ev ok _ _ => ok end) (g_events s).
+Definition no_duplicate_quiet : Prop :=
+  forall c sched, idem_cfg c = true -> forallb sane_choice sched = true -> forallb conn_free_choice sched = true ->
+  no_error_events (y_st (yrun c sched)) = true ->
+  (forall i, (subm_count i (y_st (yrun c sched)) <= 1)%nat) -> no_duplicate_at (yrun c sched).
+
+Definition batch_eqb (a b : batch) : bool :=
+  tpk_eqb (ba_key a) (ba_key b) && (ba_epoch a =? ba_epoch b) && (ba_first a =? ba_first b) &&
+  (fix eq (x y : list Z) := match x, y with [] , [] => true | i :: x', j :: y' => (i =? j) && eq x' y' | _, _ => false end)
+    (ba_ids a) (ba_ids b).
+Definition share (a b : batch) : bool := existsb (fun i => existsb (Z.eqb i) (ba_ids b)) (ba_ids a).
+(* every batch delivered for a partition that shares a message with an earlier one is that batch again *)
+Definition resend_okb (h : list rlog) : bool :=
+  let bs := map rl_batch h in
+  forallb (fun a => forallb (fun b => implb (tpk_eqb (ba_key a) (ba_key b) && share a b) (batch_eqb a b)) bs) bs.
+Definition resend_identical_full : Prop :=
+  forall c sched, idem_cfg c = true -> resend_okb (y_hist (yrun c sched)) = true.
+
+(* batches SENT for (partition, epoch), in order: a batch seen before is a resend, a new one must start one past
+   the highest sequence sent so far *)
+Fixpoint sent_ok (seen : list batch) (next : Z) (bs : list batch) : bool :=
+  match bs with
+  | [] => true
+  | b :: r => if existsb (batch_eqb b) seen then sent_ok seen next r
+              else (ba_first b =? next) && sent_ok (b :: seen) (ba_last b + 1) r
+  end.
+Definition sent_batches (k : tpk) (ep : Z) (h : list rlog) : list batch :=
+  filter (fun b => tpk_eqb (ba_key b) k && (ba_epoch b =? ep)) (map rl_batch h).
+Definition sequence_contiguous_full : Prop :=
+  forall c sched k ep, idem_cfg c = true -> sent_ok [] 0 (sent_batches k ep (y_hist (yrun c sched))) = true.
+
+Definition stamp_eqb (a b : stamp) : bool :=
+  tpk_eqb (fst (fst a)) (fst (fst b)) && (snd (fst a) =? snd (fst b)) && (snd a =? snd b).
+Definition consistentb (cl : list (Z * stamp)) : bool :=
+  forallb (fun a => forallb (fun b => Bool.eqb (fst a =? fst b) (stamp_eqb (snd a) (snd b))) cl) cl.
